@@ -81,6 +81,7 @@ class TelegramQueue:
         "_consumer_task",
         "_data_secure_group_key_issue_cbs",
         "_rate_limiter",
+        "_stopping",
         "outgoing_queue",
         "telegram_received_cbs",
         "xknx",
@@ -95,6 +96,7 @@ class TelegramQueue:
         self.outgoing_queue: asyncio.Queue[Telegram | None] = asyncio.Queue()
         self._consumer_task: Awaitable[tuple[None, None]] | None = None
         self._rate_limiter: asyncio.Task[None] | None = None
+        self._stopping = False
 
     def register_telegram_received_cb(
         self,
@@ -119,8 +121,14 @@ class TelegramQueue:
         """Unregister callback for a telegram being received from KNX bus."""
         self.telegram_received_cbs.remove(telegram_received_cb)
 
+    @property
+    def running(self) -> bool:
+        """Return if the consumer tasks are running."""
+        return self._consumer_task is not None and not self._consumer_task.done()
+
     async def start(self) -> None:
         """Start telegram queue."""
+        self._stopping = False
         self._consumer_task = asyncio.gather(
             self._telegram_consumer(), self._outgoing_rate_limiter()
         )
@@ -132,8 +140,11 @@ class TelegramQueue:
             # not running - a stop sentinel left in the queue would end the
             # consumer of the next start() at once
             return
-        # If a None object is pushed to the queue, the queue stops
-        self.xknx.telegrams.put_nowait(None)
+        if not self._stopping:
+            # one sentinel per run - an overlapping stop() only waits for the first
+            self._stopping = True
+            # If a None object is pushed to the queue, the queue stops
+            self.xknx.telegrams.put_nowait(None)
         await self._consumer_task
 
     async def _telegram_consumer(self) -> None:
@@ -142,9 +153,15 @@ class TelegramQueue:
             telegram = await self.xknx.telegrams.get()
             # Breaking up queue if None is pushed to the queue
             if telegram is None:
-                self.outgoing_queue.put_nowait(None)
                 await self.outgoing_queue.join()
                 self.xknx.telegrams.task_done()
+                if not self.xknx.telegrams.empty():
+                    # queued by a device or a callback meanwhile - the sentinel goes
+                    # behind them, else they would never be processed and marked done
+                    self.xknx.telegrams.put_nowait(None)
+                    continue
+                self.outgoing_queue.put_nowait(None)
+                await self.outgoing_queue.join()
                 break
 
             self.xknx.group_address_dpt.set_decoded_data(telegram)
